@@ -25,6 +25,7 @@ def run(ctx):
     ctx.rule("C04.R2", "K5/K1", "worker SIGTERM handler only clears `alive`; SIGTERM does not interrupt system calls")
     ctx.rule("C04.R3", "K6", "every worker run loop tests `alive`, drains within cfg.graceful_timeout; no `alive` test can abandon a request already read")
     ctx.rule("C04.R4", "K4", "close_sockets closes every listener and unlinks a unix path iff asked")
+    ctx.rule("C04.R6", "K4", "(= C14.R5) the state the unlink decision of stop() reads is kept current: reexec_pid is cleared, on the arbiter, exactly when the re-exec'ed master is reaped")
     ctx.rule("C04.R5", "K1/K5", "(= C17.R3/R4) the pid file is removed at exit: owner-checked unlink, arbiter call discipline (reload releases the old file before creating the new one)")
     r1(ctx)
     r2(ctx)
@@ -36,6 +37,8 @@ def run(ctx):
     a = MultiAlias(ctx, {"C17.R3": "C04.R5", "C17.R4": "C04.R5"})
     c17.r3(a)
     c17.r4(a)
+    from .c03 import reap_state
+    reap_state(ctx, "C04.R6")
 
 
 def r1(ctx):
@@ -212,11 +215,24 @@ def r3(ctx):
         from ..absint import SpecObj
         f = ctx.fn(repo.func("gunicorn.workers.ggevent.GeventWorker.run"))
         g = f.cfg
-        drains = [w for w in walk_own(f.node) if isinstance(w, ast.While) and any(cfg_attr(x) == "graceful_timeout" for x in ast.walk(w.test))]
+        # the drain loop: the `while` whose condition is bounded by graceful_timeout -- directly, or through a local
+        # computed from it (`deadline = time.time() + cfg.graceful_timeout`)
+        gt_names = set()
+        for x in walk_own(f.node):
+            if isinstance(x, ast.Assign) and any(cfg_attr(y) == "graceful_timeout" for y in ast.walk(x.value)):
+                gt_names |= set(t.id for t in x.targets if isinstance(t, ast.Name))
+        drains = [w for w in walk_own(f.node) if isinstance(w, ast.While) and
+                  (any(cfg_attr(x) == "graceful_timeout" for x in ast.walk(w.test)) or (names(w.test) & gt_names) or
+                   any(isinstance(t, ast.If) and (any(cfg_attr(x) == "graceful_timeout" for x in ast.walk(t.test)) or (names(t.test) & gt_names)) for t in w.body))]
+        ctx.need(drains, "C04.R3: the graceful drain loop of GeventWorker.run (bounded by graceful_timeout) was not found")
         if drains:
             w = drains[0]
-            first = g.nodes_of(w.body[0])
-            first = [n for n in first if n.kind in ("stmt", "for", "test")] or first
+            # first node(s) of the loop body: where the true edge of the loop condition leads
+            wt = [t for t in g.tests() if t.stmt is w]
+            first = [b for t in wt for b, l in t.out if l == "true" and b not in wt]
+            if not wt:
+                hd0 = [n for n in g.nodes_of(w) if n.kind == "join"]
+                first = [b for h in hd0 for b, l in h.out if l == "next"]
             sleeps = [n for c in walk_own(f.node) if isinstance(c, ast.Call) and (repo.call_target(f.module, f, c) or "").endswith(".sleep") and any(a is w for a in f.module.ancestors(c)) for n in nodes_with(f, c)]
             svar = None
             for n in walk_own(f.node):
